@@ -39,6 +39,7 @@ def direct_sound_oracle(ctx):
                       (src + np.array([(S - 0.5) * step, 0.0, 0.0]))[None, :],     # last bin
                       (src + np.array([(S + 0.5) * step, 0.0, 0.0]))[None, :],     # first bin beyond the end
                       (src + np.array([(2 * S + 3.5) * step, 0.2, 0.1]))[None, :]])
+    recs = recs[ctx.rng.permutation(len(recs))]       # receivers beyond the end anywhere in the set
     mono = r.collect_energy_receiver_mono(scenes.coords(recs)).time
     mono_d = r.collect_energy_receiver_mono(scenes.coords(recs), direct_sound=True).time
     ctx.oracle_evals += 2
